@@ -84,7 +84,18 @@ func runConcurrent(c *Case) Verdict {
 		var rec *envRecorder
 		if envTracePath != "" {
 			rec = &envRecorder{ids: map[*env.Env]int{}, pre: map[*env.Env]bool{}, loading: true, threads: map[int64]int{}, limit: 4000}
-			env.VerifEnvOp = rec.hook
+		}
+		// The hook runs under the scope's lock, before the change.  A write of the shared macro's name holds that lock a
+		// little longer: readers queue up behind it and read right after it; a definition published in two writes
+		// then shows its intermediate state to them (a single write shows nothing).
+		recHook := rec
+		env.VerifEnvOp = func(op string, scope *env.Env, key string) {
+			if op == "set" && key == "smac" {
+				time.Sleep(30 * time.Microsecond)
+			}
+			if recHook != nil {
+				recHook.hook(op, scope, key)
+			}
 		}
 		ns, probe, err := NewLoadedEnv()
 		if err != nil {
